@@ -130,7 +130,8 @@ def _write_file(path, table, layout, rng):
 def real(case):
     import msmhelper as mh
     rng = core.Rng(hash(str(case['table'])) & 0xffff)
-    d = tempfile.mkdtemp(prefix='msmverif_io_')
+    d = os.path.join(tempfile.gettempdir(), 'msmverif_io_%d' % os.getpid())     # the SAME paths are rewritten by every case of this process
+    os.makedirs(d, exist_ok=True)
     f = os.path.join(d, 'data.dat')
     try:
         if case['op'] == 'write':
@@ -194,7 +195,6 @@ def real(case):
     finally:
         for fn in os.listdir(d):
             os.unlink(os.path.join(d, fn))
-        os.rmdir(d)
 
 
 def request(case, obs):
